@@ -97,10 +97,12 @@ def toInitRaises : Sexp → Option (List (String × PyScalar) → Bool)
   | _ => none
 
 def toClassDef : Sexp → Option ClassDef
-  | .list [.atom "class", name, bases, ancestors, kind, abstr, .list params, args, rec, sav, ir] => do
+  | .list [.atom "class", name, bases, ancestors, kind, abstr, .list params, args, xt, rec, sav, ir] => do
     pure { name := ← name.str?, bases := ← toStrList bases, ancestors := ← toStrList ancestors,
            kind := ← toKind kind, abstract := ← abstr.bool?, params := ← params.mapM toParam,
-           argNames := ← toStrList args, recognize := ← optProg toRecOp rec,
+           argNames := ← toStrList args,
+           extraTy := ← (match xt with | .atom "~" => some none | t => (toTy t).map some),
+           recognize := ← optProg toRecOp rec,
            savorize := ← optProg toSavOp sav, initRaises := ← toInitRaises ir }
   | _ => none
 
